@@ -13,7 +13,7 @@
      Message.MarshalJSON / encoding/json on the same shapes (text layer trusted)            -> to_json
      Message.UnmarshalJSON, TranslateArgs.UnmarshalJSON                                     -> of_json_into
      Type.WriteTo / Type.ReadFrom                                                           -> type_write / type_read
-     TransCtrlSeq, ClearString, String, fmt.Fprintf restricted to %s and %%                 -> strip / ansi / clear_string / ansi_string / sprintf
+     TransCtrlSeq, ClearString, String, fmt.Fprintf restricted to %s %d %% %[n]s %[n]d         -> strip / ansi / clear_string / ansi_string / sprintf
    Independent specification: the NBT binary grammar as a tree type with its textbook encoder and a
    recursive-descent reader (dec_payload), the well-formedness predicate wf_tag, the position-based
    definition of "contains a formatting code" (code_at / code_free), the piece-wise description of a
@@ -792,7 +792,7 @@ Definition sect1 : N := 194.   (* the section sign is C2 A7 in UTF-8 *)
 Definition sect2 : N := 167.
 
 (* rendering outcome: Go panic is an explicit outcome; RUnsup = a format string outside the modelled
-   fragment of fmt (anything but literals, %s and %%) *)
+   fragment of fmt (see sprintf_go) *)
 Inductive rres : Type := ROk (s : str) | RCrash | RUnsup.
 Definition rbind (r : rres) (f : str -> rres) : rres :=
   match r with ROk s => f s | RCrash => RCrash | RUnsup => RUnsup end.
@@ -832,10 +832,14 @@ Fixpoint code_free (s : str) : bool :=
 Fixpoint count_codes (s : str) : nat :=
   match s with [] => 0 | _ :: r => (if code_at s then 1 else 0) + count_codes r end%nat.
 
-(* fmt.Fprintf(format, args...) for formats made of literal bytes, %s and %%.
+(* fmt.Fprintf(format, args...) for formats made of literal bytes, %s, %%, and - what the library's own language
+   files (data/lang: vanilla's %1$s is generated as Go's explicit argument index %[1]s) also use - %[n]s / %[n]d
+   with a one-digit index, %d, and a lone % at the end.
    An argument is (is_message, its rendering): %s prints the rendering (a string as it is, a Message
-   through its String method); missing arguments print %!s(MISSING); left-over arguments print
-   %!(EXTRA type=value, ...). *)
+   through its String method); %d of a string prints %!d(string=...); a verb without operand prints
+   %!s(MISSING); an index outside the argument list prints %!s(BADINDEX) and leaves the operand counter alone;
+   left-over arguments print %!(EXTRA type=value, ...) unless an index was used (p.reordered); a lone % at the
+   end prints %!(NOVERB).  sprintf_go: all = every argument, k = argNum, re = p.reordered. *)
 Definition farg := (bool * str)%type.
 Definition extra_one (a : farg) : str :=
   (if fst a then [99;104;97;116;46;77;101;115;115;97;103;101] else [115;116;114;105;110;103]) ++ 61 :: snd a.
@@ -848,24 +852,48 @@ Fixpoint extra_join (l : list farg) : str :=
 Definition extra_tail (l : list farg) : str :=
   match l with [] => [] | _ => [37;33;40;69;88;84;82;65;32] ++ extra_join l ++ [41] end.
 
-Fixpoint sprintf (f : str) (args : list farg) : rres :=
+(* v = 115 's' or 100 'd' *)
+Definition verb_out (v : N) (a : farg) : rres :=
+  if v =? 115 then ROk (snd a)
+  else if fst a then RUnsup          (* %d of a Message: the struct field by field - outside the fragment *)
+  else ROk ([37;33;100;40;115;116;114;105;110;103;61] ++ snd a ++ [41]).      (* %!d(string=...) *)
+Definition missing_out (v : N) : str := [37;33;v;40;77;73;83;83;73;78;71;41].          (* %!v(MISSING) *)
+Definition badindex_out (v : N) : str := [37;33;v;40;66;65;68;73;78;68;69;88;41].      (* %!v(BADINDEX) *)
+Definition noverb_out : str := [37;33;40;78;79;86;69;82;66;41].                        (* %!(NOVERB) *)
+Definition end_tail (all : list farg) (k : nat) (re : bool) : str :=
+  if re then [] else extra_tail (skipn k all).
+
+Fixpoint sprintf_go (all : list farg) (f : str) (k : nat) (re : bool) : rres :=
   match f with
-  | [] => ROk (extra_tail args)
+  | [] => ROk (end_tail all k re)
   | c :: r =>
       if c =? 37 then
         match r with
-        | [] => RUnsup                                   (* "%!(NOVERB)": outside the fragment *)
+        | [] => ROk (noverb_out ++ end_tail all k re)
         | d :: r2 =>
-            if d =? 37 then rbind (sprintf r2 args) (fun o => ROk (37 :: o))
-            else if d =? 115 then
-              match args with
-              | a :: rest => rbind (sprintf r2 rest) (fun o => ROk (snd a ++ o))
-              | [] => rbind (sprintf r2 []) (fun o => ROk ([37;33;115;40;77;73;83;83;73;78;71;41] ++ o))
+            if d =? 37 then rbind (sprintf_go all r2 k re) (fun o => ROk (37 :: o))
+            else if (d =? 115) || (d =? 100) then
+              match nth_error all k with
+              | Some a => rbind (verb_out d a) (fun x => rbind (sprintf_go all r2 (S k) re) (fun o => ROk (x ++ o)))
+              | None => rbind (sprintf_go all r2 k re) (fun o => ROk (missing_out d ++ o))
+              end
+            else if d =? 91 then                                  (* %[n]s, %[n]d *)
+              match r2 with
+              | n :: rb :: v :: r3 =>
+                  if (49 <=? n) && (n <=? 57) && (rb =? 93) && ((v =? 115) || (v =? 100)) then
+                    match nth_error all (N.to_nat (n - 49)) with
+                    | Some a => rbind (verb_out v a) (fun x =>
+                                rbind (sprintf_go all r3 (S (N.to_nat (n - 49))) true) (fun o => ROk (x ++ o)))
+                    | None => rbind (sprintf_go all r3 k true) (fun o => ROk (badindex_out v ++ o))
+                    end
+                  else RUnsup
+              | _ => RUnsup
               end
             else RUnsup
         end
-      else rbind (sprintf r args) (fun o => ROk (c :: o))
+      else rbind (sprintf_go all r k re) (fun o => ROk (c :: o))
   end.
+Definition sprintf (f : str) (args : list farg) : rres := sprintf_go args f 0 false.
 
 (* piece-wise description of a format string (specification side) *)
 Inductive piece : Type := PLit (s : str) | PArg | PPct.
@@ -957,3 +985,44 @@ Section Render.
 End Render.
 
 Definition is_crash (r : rres) : bool := match r with RCrash => true | _ => false end.
+
+(* ------------------------------------------------------------------------------------------ *)
+(* Specification side for the explicit-index fragment of fmt: QIdx n is %[n+1]s                *)
+(* ------------------------------------------------------------------------------------------ *)
+Inductive piece2 : Type := QLit (s : str) | QArg | QPct | QIdx (n : nat).
+Fixpoint render_fmt2 (ps : list piece2) : str :=
+  match ps with
+  | [] => []
+  | QLit s :: r => s ++ render_fmt2 r
+  | QArg :: r => 37 :: 115 :: render_fmt2 r
+  | QPct :: r => 37 :: 37 :: render_fmt2 r
+  | QIdx n :: r => 37 :: 91 :: (49 + N.of_nat n) :: 93 :: 115 :: render_fmt2 r
+  end.
+(* k = the position of the next sequential operand: an index moves it behind the argument it names *)
+Fixpoint subst2 (ps : list piece2) (all : list str) (k : nat) : str :=
+  match ps with
+  | [] => []
+  | QLit s :: r => s ++ subst2 r all k
+  | QPct :: r => 37 :: subst2 r all k
+  | QArg :: r => nth k all [] ++ subst2 r all (S k)
+  | QIdx n :: r => nth n all [] ++ subst2 r all (S n)
+  end.
+(* every operand a piece names exists; indexes have one digit *)
+Fixpoint refs_ok (ps : list piece2) (len k : nat) : bool :=
+  match ps with
+  | [] => true
+  | QArg :: r => (k <? len)%nat && refs_ok r len (S k)
+  | QIdx n :: r => (n <? len)%nat && (n <? 9)%nat && refs_ok r len (S n)
+  | _ :: r => refs_ok r len k
+  end.
+Fixpoint final_k (ps : list piece2) (k : nat) : nat :=
+  match ps with
+  | [] => k
+  | QArg :: r => final_k r (S k)
+  | QIdx n :: r => final_k r (S n)
+  | _ :: r => final_k r k
+  end.
+Definition uses_idx (ps : list piece2) : bool :=
+  existsb (fun p => match p with QIdx _ => true | _ => false end) ps.
+Definition lit_clean2 (ps : list piece2) : bool :=
+  forallb (fun p => match p with QLit s => forallb (fun c => negb (c =? 37)) s | _ => true end) ps.
